@@ -846,6 +846,7 @@ type c13Op struct {
 	Mand    *c13Mand
 	Form    string // how the inserted key is written (c13Form...)
 	Layout  string // file layout of the mutant ("" = as the base: LF, final line break)
+	Near    string // near-miss class of a foreign key derived from the accepted keys ("" = not a near miss)
 }
 
 func c13CaseVariants(k string) []string {
@@ -1186,6 +1187,9 @@ func c13Apply(c *Case, b *c13Base, mn *c13MapNode, op c13Op, strictSelfCheck boo
 	if flow {
 		c.SetAdd("forms_covered", "flow:"+c13Group(sec.Name)+":"+kindClass)
 	}
+	if op.Near != "" {
+		c.SetAdd("nearmiss_covered", sec.Name+":"+op.Near)
+	}
 	if op.Layout != "" {
 		fl := formLabel
 		if fl == c13FormPlain {
@@ -1244,6 +1248,10 @@ func c13Apply(c *Case, b *c13Base, mn *c13MapNode, op c13Op, strictSelfCheck boo
 		if op.Layout != "" {
 			sig += ":layout=" + op.Layout
 			what += " (file layout: " + op.Layout + ")"
+		}
+		if op.Near != "" {
+			sig += ":near-miss=" + op.Near
+			what += " (near miss of an accepted key: " + op.Near + ")"
 		}
 		disagree(sig, what, detail(map[string]interface{}{"expected_position": want, "new_diags": diagStrings(fresh)}))
 	}
@@ -1388,6 +1396,7 @@ func runC13(r *Run) {
 		"Family names: a template with every user-named mapping (dispatch/call inputs, call secrets and outputs, env at workflow/job/step/container/service level, jobs, job outputs, matrix rows, row values, include/exclude items, services, step and job with, job secrets) rendered with generated names of class ascii / mixed / nonascii (Latin-1, Greek, Cyrillic letters with one-to-one case pairs, pair table written in the monitor); each name repeated as upper, lower, capitalised, only non-ASCII letters flipped, only ASCII letters flipped, one letter flipped, all flipped, random mixture. " +
 		"Families forms-*: in every mapping of every template a foreign key and a repetition written with an anchor, an explicit tag, both, single / double quotes, as explicit `? key`, as an alias of a scalar anchored elsewhere (and of the anchored original key), as merge key `<<: *a`, and with an alias as value; tag before anchor, local tag, verbatim tag and the non-specific tag `!`; every form also as the last key of the mappings that end the file, with the file rewritten without final line break (LF and CRLF); template K adds one-line flow mappings in every section group, keys that already carry properties, and alias-valued siblings. " +
 		"Family jobkind: 1, 2 and 3 keys of the other job kind (runs-on, environment, outputs, env, defaults, steps, timeout-minutes, continue-on-error, container in a job with `uses:`; with, secrets in a job without) in every order, before / behind `uses:` resp. `steps:`, in a clean and a dirty base. " +
+		"Near misses: in every fixed section foreign keys derived from its accepted keys (suffix -ignore, -ignore-ignore, _ignore, plural / singular, upper case, keys of the sections of the same group), minus those the table lists as legal there. " +
 		"Each mutant is re-parsed with yaml.v3 and compared with the intended tree before it is judged. Non-trivial = distinct (base, mapping path, mutation, key, position, value kind)."
 	r.Assume("yaml.v3 line/column of a key is the position at which actionlint has to report it (C07 checks positions independently)")
 	r.Assume("a diagnostic is identified by (line, column, kind, message with embedded line:N,col:M references blanked); base diagnostics below the mutated line are expected shifted by the number of inserted lines")
@@ -1524,6 +1533,7 @@ func runC13(r *Run) {
 	c13NamesFloors(r)
 	c13FormsFloors(r)
 	c13JobKindFloors(r)
+	c13NearMissFloors(r)
 
 	// coverage floors
 	if n := r.SetLen("selfcheck_failures"); n > 0 {
